@@ -14,9 +14,9 @@ import (
 func ParseProblem(b []byte) string { p, _, _, _ := parseProblem(b); return p }
 
 // CrashBytes / CrashMsg / CrashDER are C10's crash monitors.
-func CrashBytes(b []byte) string                     { return crashBytes(b) }
-func CrashMsg(m *pb.QuoteV4, c *world.Case) string    { return crashMsg(m, c) }
-func CrashDER(b []byte) string                       { return crashDER(b) }
+func CrashBytes(b []byte) string                   { return crashBytes(b) }
+func CrashMsg(m *pb.QuoteV4, c *world.Case) string { return crashMsg(m, c) }
+func CrashDER(b []byte) string                     { return crashDER(b) }
 
 // VerifyProblem runs one verification case through library and reference (soundness oracle).
 func VerifyProblem(c *world.Case) string {
